@@ -33,6 +33,7 @@ theorem canceled_idle_step {s s' : St} {l : Label} {j : Nat} (ht : TInv s) (hp :
     have : tsAt s j = .new := getD_ge' hge
     rw [this] at hc; cases hc
   cases l with
+  | g a => rw [g_step_frame (step_wd hs)]; exact ⟨hp, hc⟩
   | e a =>
     obtain ⟨hws, hts, _⟩ := e_step_frame (step_e hs)
     exact ⟨by rw [pc_congr hws]; exact hp, by rw [tsAt_congr hts]; exact hc⟩
@@ -66,7 +67,7 @@ theorem canceled_idle_step {s s' : St} {l : Label} {j : Nat} (ht : TInv s) (hp :
       refine ⟨?_, hc⟩
       show (s.ws.set k WP.started).getD j .idle = .idle
       rw [getD_set' hlt, if_neg hne]; exact hp
-    | createS | lock | wait | wake _ | relock | unlock | cancelS | ret =>
+    | createG | createS | lock | wait | wake _ | relock | unlock | cancelG | joinG | cancelS | ret =>
       have : s'.ws = s.ws ∧ s'.ts = s.ts := by
         simp only [dStep] at hd
         (repeat' split at hd) <;> simp [roomTest, drainTest] at hd <;> (try split at hd) <;>
